@@ -20,9 +20,11 @@ PROPS["C14"] = dict(
                 "definition is held by every open chain); tied to the code by an exhaustive differential of the real "
                 "satisfiers (result and chain index) and by evaluating the property on the implementation's answers"),
     level_note=("trusted: Lean kernel, the differential harness; modelled: event matching abstracted to the index of the "
-                "first matching definition, bitset as List Bool"),
+                "first matching definition, bitset as List Bool. The matching rule itself (message / signal events against their "
+                "definitions) is TRANSLATED from pkg/event/events.go on every run and proved equal to the kernel EventMatch.matchesInst "
+                "(Props/C11MatchCurrent: message_match_is_source, signal_match_is_source)"),
     technique="Lean 4 proof (inductive invariant) + exhaustive model/implementation differential",
-    lean_modules=["Bpmn.Props.C14", "Bpmn.Props.C14Current"],
+    lean_modules=["Bpmn.Props.C14", "Bpmn.Props.C14Current", "Bpmn.Props.C11MatchCurrent"],
     families=["c14", "c14eng"],
     exhaustive=True,
     rule=("every history over n=1..4 definitions plus a non-matching event up to length 5..9 (exhaustive, "
